@@ -246,6 +246,31 @@ def one_scenario(ctx, res, rng, k):
             left = [r["zid"] for r in G.dump_index(zdir) if r["path"] == "zbroken.zo"]
             res.failures.append(C.Failure("a page that was whitelisted, then fixed and indexed, then broken again is accepted silently by `db reindex` "
                                           f"(its notes now in the index: {left}): the breakage was never whitelisted", {**case, "kind": "rebroken_accepted"}))
+        # ---- the whitelist names pages exactly: `arch/zbroken.zo` on it says nothing about `zbroken.zo` (a suffix of that entry)
+        #      or `rch/zbroken.zo` / `zbroken.zo2`
+        if zdir.exists():
+            shutil.rmtree(zdir)
+        zdir.mkdir(parents=True)
+        G.write_dir(zdir, files)
+        (zdir / "arch").mkdir()
+        (zdir / "arch" / "zbroken.zo").write_text(bad)
+        Z.clear_engine_cache()
+        rc, _, _ = Z.zorg_main(zdir, "db", "create", "-f", config=cfg)
+        if rc != 0:
+            return None
+        other = rng.choice(["zbroken.zo", "rch/zbroken.zo", "broken.zo"])
+        (zdir / other).parent.mkdir(parents=True, exist_ok=True)
+        (zdir / other).write_text(bad)
+        for cmd in (("db", "create"), ("db", "reindex")):
+            Z.clear_engine_cache()
+            rcl, _, _ = Z.zorg_main(zdir, *cmd, config=cfg)
+            res.evaluations += 1
+            if rcl == 0:
+                wl = (zdir / ".zorg" / "error_file_whitelist.txt").read_text().split("\n")
+                res.failures.append(C.Failure(f"`{' '.join(cmd)}` accepted the broken page {other} although only arch/zbroken.zo is whitelisted (whitelist now {wl})",
+                                              {**case, "kind": "whitelist_lookalike", "other": other}))
+                break
+        res.count("whitelist_lookalike_scenarios")
     return None
 
 
@@ -318,7 +343,7 @@ RULE = (
     "newline, CRLF, random strings over the lexer alphabet, ASCII and Unicode, plus a corpus of formerly crashing inputs; per text: exception, "
     "parser error count (spy on ErrorManager), has_errors, notes, and whether the listener reached an item; error-free texts also vs the Lean Zo "
     "model; then db create / -f / whitelist / reindex refusal scenarios with a broken page, incl. two pages changed before one reindex and a "
-    "whitelisted page that is fixed, indexed and broken again; non-trivial = damaged or erroneous text"
+    "whitelisted page that is fixed, indexed and broken again, and broken pages whose names are suffixes / infixes of a whitelisted one; non-trivial = damaged or erroneous text"
 )
 ASSUME = ["termination and error reporting of the ANTLR runtime are sampled, not proved (partial)", "file system atomic"]
 
